@@ -35,6 +35,7 @@ type SyncSchedScenario struct {
 	Tape      []int        `json:"tape"`
 	Canonical bool         `json:"canonical,omitempty"`
 	RangeErrs int          `json:"range_errs,omitempty"` // the getter fails the first N range requests
+	Span      int          `json:"span,omitempty"`       // > 0: headers verify at most Span heights ahead (heads further away need bifurcation)
 }
 
 func genSyncSched(t *rapid.T) SyncSchedScenario {
@@ -73,6 +74,7 @@ func genSyncSched(t *rapid.T) SyncSchedScenario {
 	}
 	s.Tape = rapid.SliceOfN(rapid.IntRange(0, 19), 0, 200).Draw(t, "tape")
 	s.RangeErrs = rapid.SampledFrom([]int{0, 0, 0, 1, 2}).Draw(t, "rangeerrs")
+	s.Span = rapid.SampledFrom([]int{0, 0, 1, 2}).Draw(t, "span")
 	return s
 }
 
@@ -87,7 +89,11 @@ func runSyncSched(t *testing.T, s SyncSchedScenario) (res Result) {
 	bubble(t, func() {
 		delta := time.Second
 		prefill, tip := uint64(s.Prefill), uint64(s.Prefill+s.Net)
-		chain := newSyncChain("c03s", int(tip)+5, prefill, delta, nil)
+		var spans []uint64
+		if s.Span > 0 {
+			spans = []uint64{uint64(s.Span)}
+		}
+		chain := newSyncChain("c03s", int(tip)+5, prefill, delta, spans)
 		e, err := newSyncEnv(chain, prefill, delta, nil,
 			hsync.WithBlockTime(delta), hsync.WithTrustingPeriod(10_000*time.Hour),
 			hsync.WithSyncFromHeight(1), hsync.WithPruningWindow(10_000*time.Hour))
@@ -241,6 +247,13 @@ func runSyncSched(t *testing.T, s SyncSchedScenario) (res Result) {
 					res.failf("%s: Syncer.Head with an honest getter: %s", tag, o.Err)
 					return
 				}
+				// the clock stands still during the schedule and nothing the Syncer holds is recent, so every
+				// caller depends on the (possibly shared) head request: it must come back with the peers' head,
+				// whoever of the concurrent callers and handlers got to apply it first
+				if o.Head != tip {
+					res.failf("%s: Syncer.Head returned height %d, the trusted peers are at %d", tag, o.Head, tip)
+					return
+				}
 			case a.Adv == "forged":
 				if o.Err == "" {
 					res.failf("%s: a header of another lineage was accepted", tag)
@@ -329,6 +342,7 @@ func TestC03Sched(t *testing.T) {
 //	3: store [1,2], network at 4; the tip is gossiped, then a Head() caller runs (racing the sync)
 //	4: store [1,2], network at 5; the tip and a forged header of height 4 are gossiped concurrently
 //	5: store [1,2], network at 5; header 4 is gossiped, then header 5; the getter fails the first range request
+//	6: store [1,2], network at 4, trust span 1; two concurrent Head() callers (shared request, bifurcation)
 var c03EnumConfigs = []SyncSchedScenario{
 	{Prefill: 2, Net: 3, Actors: []SchedActor{{Kind: "gossip", K: 3}, {Kind: "gossip", K: 1, Adv: "twin", After: 1}}},
 	{Prefill: 2, Net: 1, Actors: []SchedActor{{Kind: "gossip", K: 1}, {Kind: "head"}}},
@@ -336,6 +350,7 @@ var c03EnumConfigs = []SyncSchedScenario{
 	{Prefill: 2, Net: 2, Actors: []SchedActor{{Kind: "gossip", K: 2}, {Kind: "head", After: 1}}},
 	{Prefill: 2, Net: 3, Actors: []SchedActor{{Kind: "gossip", K: 3}, {Kind: "gossip", K: 2, Adv: "forged"}}},
 	{Prefill: 2, Net: 3, RangeErrs: 1, Actors: []SchedActor{{Kind: "gossip", K: 2}, {Kind: "gossip", K: 3, After: 1}}},
+	{Prefill: 2, Net: 2, Span: 1, Actors: []SchedActor{{Kind: "head"}, {Kind: "head"}}},
 }
 
 func TestC03Enum(t *testing.T) {
